@@ -102,3 +102,21 @@ add("C19", "fault_enumeration",
     "a crash is modelled as abandoning the FileCache object (exception) or killing the process (os._exit) followed by "
     "a new FileCache on the directory; straggling pool workers are joined before the directory is examined",
     "fault and crash-point enumeration (instrumented resource + sys.monitoring failpoints) with reopen oracle", "4/C19")
+add("C05", "exploration",
+    "All four estimator variants are run on realisable (von-Mises mixture) and unrealisable/noisy moment quadruples, "
+    "N in 8..180, input ranks 0..3; every returned distribution is judged for finiteness, non-negativity and unit "
+    "integral per frequency, every exception or interpreter crash is a violation; spectrum level 1D->2D->1D "
+    "conservation, carried variables and batch-row-vs-single comparisons; thorough adds NUMBA_BOUNDSCHECK=1. The "
+    "evidence reports how many inputs were unrealisable and how many forced the Newton fallback. Held-on-K-executions.",
+    "uniform direction grids; finite moments with a1^2+b1^2<1; the shadow run of the pure-Python solver body is "
+    "informational only",
+    "runtime postcondition monitors on the estimator boundary + crash isolation per worker + bounds-checked JIT", "4/C05")
+add("C06", "exploration",
+    "Von-Mises mixtures resolved by the grid (N in 24..144): four-moment error of MEM2 Newton/scipy against the stated "
+    "0.01, Newton-vs-scipy 0.02, MEM against an independent closed-form Lygre-Krogstad implementation (itself "
+    "verified on a 4096-point grid), rotation by k bins (quick 4 random k, thorough all k) and mirror of the input "
+    "moments vs rolled/mirrored output, the constraint Jacobian vs central finite differences, and the hard cases "
+    "read from the repository's test file at run time with all 36 rotations and the mirror. Held-on-K-executions.",
+    "fidelity judged only where the grid resolves the distribution (mixtures >= 1.5 bins by construction; shipped "
+    "hard cases with circular spread >= 1.3 bins, i.e. cases 0-3)",
+    "metamorphic (rotation/mirror) pair monitors + moment-recomputation oracle + finite-difference oracle", "4/C06")
